@@ -43,8 +43,15 @@ class Include(DirectivePlugin):
                 "raw": "Could not find file: " + escape_text(relpath),
             }
 
-        with open(dest, "rb") as f:
-            content = f.read().decode(encoding)
+        try:
+            with open(dest, "rb") as f:
+                content = f.read().decode(encoding)
+        except (LookupError, UnicodeDecodeError):
+            # an unknown ``:encoding:`` or a file that is not text in that encoding
+            return {
+                "type": "block_error",
+                "raw": "Could not decode file: " + escape_text(relpath),
+            }
 
         ext = os.path.splitext(relpath)[1]
         if ext in {".md", ".markdown", ".mkd"}:
